@@ -26,7 +26,7 @@ def run (j : Json) : Json :=
   let bad := jbool impl "race" || jbool impl "deadlock" || jbool impl "panic"
   let diffs := jarr j "diffs"
   let inGuard := diffs.all fun d =>
-    HL.Bg.staleGuard (jstr d "k") (jbool d "ws") (jnat d "inflight") (jbool d "overlap")
+    HL.Bg.staleGuard (jstr d "k") (jbool d "ws") (jnat d "inflight") (jbool d "overlap") (jbool d "diagoff")
   let specOk := !bad && diffs.isEmpty
   let known : Array Json :=
     if !bad && !diffs.isEmpty && inGuard then #["stale-resolved"] else #[]
@@ -36,7 +36,7 @@ def run (j : Json) : Json :=
     else if jbool impl "panic" then "panic"
     else if !diffs.isEmpty then
       let d := diffs[0]!
-      s!"response {jstr d "k"} at op {(jget d "i").compress} differs from the sequential replay (ws={jbool d "ws"}, inflight={jnat d "inflight"}, overlap={jbool d "overlap"})"
+      s!"response {jstr d "k"} at op {(jget d "i").compress} differs from the sequential replay (ws={jbool d "ws"}, inflight={jnat d "inflight"}, overlap={jbool d "overlap"}, diagoff={jbool d "diagoff"})"
     else ""
   Json.mkObj [("model", modelVerdict), ("spec_ok", specOk), ("in_domain", true),
     ("known", Json.arr known), ("why", why)]
